@@ -311,8 +311,26 @@ def types_init_parses(run: Run):
               "{e.name for e in self.all_enums.values()}" in s2, detail=s2[:400], group="import.names:collision-set")
 
 
+def declared_dependencies(run: Run):
+    """API.requires_package (setup.py / constraints declare a distribution iff the API needs it): true for every package that a message of ANY proto
+    known to the API - target files and their imports - lives in; the only other reason is the IAM mixin."""
+    from vf.schema import SchemaModel
+    from vf.pyvc import Contract
+    m = SchemaModel()
+    m.add_class("Proto", {"all_messages": "Map[Str,MessageType]"})
+    m.classes["API"].update({"all_protos": "Map[Str,Proto]", "has_iam_mixin": "Bool"})
+    c = Contract("API.requires_package", source=("gapic/schema/api.py", "API.requires_package"), params={"self": "API", "pkg": "Seq[Str]"}, result="Bool",
+                 ensures=["forall(lambda p: forall(lambda msg: implies(msg.ident.package == pkg, result), p.all_messages.values()), self.all_protos.values())",
+                          "implies(result and not self.has_iam_mixin, exists(lambda p: exists(lambda msg: msg.ident.package == pkg, p.all_messages.values()), "
+                          "self.all_protos.values()))"])
+    m.add_contract(c)
+    run.verify(m, c)
+    run.assume(*m.assumptions)
+
+
 def run(run: Run):
     run.witness_check = witness_still_fails
+    declared_dependencies(run)
     types_init_parses(run)
     flattened_parameter_names(run)
     stage1(run)
